@@ -333,6 +333,8 @@ pub fn gen_arg(rng: &mut Rng, id: &str, positional: bool, cfg: &GenCfg, ids: &[S
         }
         if !has { a.long = Some(id.to_string()); }
         if a.long.is_some() && rng.chance(1, 4) { a.aliases.push(format!("{id}x")); if rng.chance(1, 3) { a.aliases.push(format!("al-{id}")); } }
+        // long aliases without a long name of its own (`.short('j').alias("jobs")`): the aliases are keys and inference candidates all the same
+        if a.long.is_none() && a.short.is_some() && rng.chance(1, 3) { a.aliases.push(format!("{id}-only")); if rng.chance(1, 3) { a.aliases.push(format!("al-{id}")); } }
         if rng.chance(1, 8) { let c = *rng.pick(&['p', 'q', 'r']); if !used_shorts.contains(&c) { used_shorts.push(c); a.short_aliases.push(c); } }
         match rng.below(10) {
             0 | 1 => a.action = Some("setTrue"),
@@ -510,9 +512,9 @@ pub fn gen_argv(rng: &mut Rng, cmd: &CmdS, maxlen: usize) -> Vec<Vec<u8>> {
                 let takes = !matches!(a.action, Some("setTrue") | Some("setFalse") | Some("count"));
                 let val: Vec<u8> = { let mut v = rng.pick(VALS).as_bytes().to_vec(); if rng.chance(1, 10) { v.push(0xff); } v };
                 let cat = |head: String, tail: &[u8]| { let mut b = head.into_bytes(); b.extend_from_slice(tail); b };
-                let use_long = a.long.is_some() && (a.short.is_none() || rng.chance(1, 2));
+                let use_long = (a.long.is_some() || !a.aliases.is_empty()) && (a.short.is_none() || rng.chance(1, 2));
                 if use_long {
-                    let mut name = if !a.aliases.is_empty() && rng.chance(1, 4) { rng.pick(&a.aliases).clone() } else { a.long.clone().unwrap() };
+                    let mut name = if !a.aliases.is_empty() && (a.long.is_none() || rng.chance(1, 4)) { rng.pick(&a.aliases).clone() } else { a.long.clone().unwrap() };
                     if cur.settings.infer_long_args && rng.chance(1, 3) && name.len() > 1 { let cut = 1 + rng.below(name.chars().count() - 1); name = name.chars().take(cut).collect(); }
                     if takes && rng.chance(1, 2) { out.push(cat(format!("--{name}="), &val)); }
                     else { out.push(format!("--{name}").into_bytes()); if takes && rng.chance(4, 5) { out.push(val); } }
